@@ -235,6 +235,58 @@ void run_state_sections() {
         });
         vf::require_outcomes("reentry", 30);
     }
+    // ---- kept: one support handle obtained once and used for a whole sequence, no re-selection
+    {
+        const int NK = 18;
+        int depth = T && !sanitized() ? 4 : 3;
+        long N = 2; for (int d = 0; d < depth; d++) N *= NK;
+        vf::info("kept.bound", vf::fmt("H = mock_c() or H = mock_scope_c(\"net\") obtained ONCE (C++: one MockSupport& reference), then every sequence of %d steps through H without selecting again, over 18 steps: clear; checkExpectations; expectOneCall(send) returning 7; actualCall(send) + returnIntValueOrDefault; expectNoCall(recv); setIntData(port,80); getData(port); strictOrder; ignoreOtherCalls; enable; disable; installComparator(T); removeAllComparatorsAndCopiers; crashOnFailure(0); hasReturnValue; expectedCallsLeft; actualCall(other); expectOneCall(cmp) with a T parameter + matching actualCall(cmp). Then observable steps through H (expectOneCall(probe), getData(port), expectedCallsLeft), then through fresh selections of the global scope and of net (expectedCallsLeft, getData(port), hasReturnValue), teardown checkExpectations (its text names where 'probe' and 'send' were recorded), clear, removeAll on mock_c(). (tracing is not exposed by the C table.)", depth));
+        vf::section_index("kept", N, [&](long idx) {
+            vf::Radix r(idx);
+            const char* NET = "net";
+            const char* K = C19_KEPT;
+            Program p;
+            bool on_net = r.take(2) != 0;
+            p.simple(C19_SELECT, on_net ? NET : nullptr);
+            int steps[8]; bool typed_expectation_alive = false;
+            for (int d = 0; d < depth; d++) {
+                steps[d] = (int)r.take(NK);
+                if (steps[d] == 17) typed_expectation_alive = true;
+                if (steps[d] == 0) typed_expectation_alive = false;
+                // an expectation that captured a comparator adaptor must not outlive the removal of the adaptors: in C the removal
+                // is the end of the adaptor's life, in C++ the comparator object belongs to the user (notes: Not asserted)
+                if (steps[d] == 12 && typed_expectation_alive) { vf::count("skipped_adaptor_lifetime"); return; }
+            }
+            for (int d = 0; d < depth; d++) {
+                switch (steps[d]) {
+                case 0: p.simple(C19_CLEAR, K); break;
+                case 1: p.simple(C19_CHECK, K); break;
+                case 2: p.expect_one("send", K); p.e_ret(vint(7)); break;
+                case 3: p.actual("send", K); p.getter_def(C19_A_GETDEF, vint(-1)); break;
+                case 4: p.expect_none("recv", K); break;
+                case 5: p.set_data("port", vint(80), nullptr, K); break;
+                case 6: p.get_data("port", K); break;
+                case 7: p.strict(K); break;
+                case 8: p.simple(C19_IOC, K); break;
+                case 9: p.simple(C19_ENABLE, K); break;
+                case 10: p.simple(C19_DISABLE, K); break;
+                case 11: p.install_cmp("T", 0, K); break;
+                case 12: p.simple(C19_REMOVE_ALL, K); break;
+                case 13: p.crash_on_fail(0, K); break;
+                case 14: p.simple(C19_S_HAS, K); break;
+                case 15: p.simple(C19_LEFT, K); break;
+                case 16: p.actual("other", K); break;
+                case 17: p.expect_one("cmp", K); p.e_param("p", vobj(&g_t[0]), "T"); p.actual("cmp", K); p.a_param("p", vobj(&g_t[2]), "T"); break;
+                }
+            }
+            p.expect_one("probe", K); p.get_data("port", K); p.simple(C19_LEFT, K);
+            p.simple(C19_LEFT); p.get_data("port"); p.simple(C19_S_HAS);
+            p.simple(C19_LEFT, NET); p.get_data("port", NET); p.simple(C19_S_HAS, NET);
+            p.end_body(); p.simple(C19_CHECK); p.simple(C19_CLEAR); p.simple(C19_REMOVE_ALL);
+            differential(p, on_net ? "H=net" : "H=global");
+        });
+        vf::require_outcomes("kept", 6);
+    }
     // ---- cmpscope
     if (sanitized()) {
         vf::info("cmpscope.bound", "comparators and copiers x scopes (sanitizer build only: a wrong lifetime shows as a use after free): scope s created before or after the installation x installed on {global, s} x kind {comparator used by a parameter of type T, copier used by an output parameter of type T} x removeAllComparatorsAndCopiers on {nobody, global, s} x used in {global, s}; each case in a forked child");
